@@ -192,6 +192,10 @@ func finish(spec *Spec, results []*exec.HarnessResult, prop, tier string, seed i
 			}
 			casesBy[r.Spec.Pkg] = append(casesBy[r.Spec.Pkg], caseRef{kind: "vio", h: r, vi: x,
 				vc: exec.ValidationCase{Harness: r.Spec.Func, Inputs: v.Inputs, Expect: exp, Bounds: r.Spec.Bounds}})
+			for _, alt := range v.Alt {
+				casesBy[r.Spec.Pkg] = append(casesBy[r.Spec.Pkg], caseRef{kind: "vio", h: r, vi: x,
+					vc: exec.ValidationCase{Harness: r.Spec.Func, Inputs: alt, Expect: exp, Bounds: r.Spec.Bounds}})
+			}
 		}
 		for _, vc := range r.Validation {
 			casesBy[r.Spec.Pkg] = append(casesBy[r.Spec.Pkg], caseRef{kind: "val", h: r, vc: vc})
@@ -224,12 +228,28 @@ func finish(spec *Spec, results []*exec.HarnessResult, prop, tier string, seed i
 				nr := nres[i]
 				switch r.kind {
 				case "vio":
+					if r.vi.conf {
+						continue
+					}
 					r.vi.nat = nr.Outcome
 					if nr.Outcome != "" && expectMatches(r.vc.Expect, nr.Outcome) {
 						r.vi.conf = true
+						r.vi.v.Inputs = r.vc.Inputs // the model that reproduced
 					}
 				case "val":
 					if nr.Outcome == "" {
+						continue
+					}
+					if strings.HasPrefix(nr.Outcome, "assert:") || strings.HasPrefix(nr.Outcome, "panic:") {
+						// The native run of the real code on a sampled path model fails the
+						// harness: a violation witnessed on concrete inputs (the symbolic
+						// prediction differed only through an uninterpreted function or stub).
+						kind, label := "assert", strings.TrimPrefix(nr.Outcome, "assert:")
+						if strings.HasPrefix(nr.Outcome, "panic:") {
+							kind, label = "panic", strings.TrimPrefix(nr.Outcome, "panic:")
+						}
+						vios = append(vios, &vio{v: &exec.Violation{Harness: r.h.Spec.Name, Kind: kind, Label: label, Inputs: r.vc.Inputs, Pos: "native run of a sampled path model"},
+							h: r.h, conf: true, nat: nr.Outcome})
 						continue
 					}
 					ok := nr.Outcome == "pass"
@@ -238,7 +258,15 @@ func finish(spec *Spec, results []*exec.HarnessResult, prop, tier string, seed i
 					}
 					if ok {
 						for j := range nr.Obs {
-							if nr.Obs[j] != r.vc.Obs[j] {
+							want := r.vc.Obs[j]
+							if strings.HasSuffix(want, "=?") {
+								// value depends on an uninterpreted function: only the label is comparable
+								if !strings.HasPrefix(nr.Obs[j], strings.TrimSuffix(want, "?")) {
+									ok = false
+								}
+								continue
+							}
+							if nr.Obs[j] != want {
 								ok = false
 							}
 						}
